@@ -70,13 +70,15 @@ def pieces(tier):
         (dict(N=4, G=2, times="id"), dict(sets="ordered", filters="full", stores="all"), 20),
         (dict(N=4, G=2, times="id", squash=False),
          dict(sets="unordered", filters="full", stores="all", only_unsquashed=True), 40),
-        (dict(N=4, G=2, times="weak"), dict(sets="unordered", filters="reduced", stores="one"), 300),
-        (dict(N=4, G=3, times="id"), dict(sets="unordered", filters="reduced", stores="one"), 250),
+        (dict(N=4, G=2, times="weak"),
+         dict(sets="unordered", filters="reduced", stores="one", no_empty=True), 300),
+        (dict(N=4, G=3, times="id"),
+         dict(sets="unordered", filters="reduced", stores="one", no_empty=True), 250),
         (dict(N=3, G=3, times="weak", grid="frac", timescale="quarter"),
          dict(sets="ordered", filters="full", stores="two"), 80),
         (dict(N=5, G=1, times="id"), dict(sets="unordered", filters="full", stores="all"), 10),
         (dict(N=5, G=2, times="id"),
-         dict(sets="unordered2", filters="reduced", stores="one", no_default=True), 120),
+         dict(sets="unordered2", filters="reduced", stores="one", no_default=True, no_empty=True), 120),
     ]
 
 
@@ -86,7 +88,7 @@ def bounds(tier):
                     "order varied deterministically); unordered2 = families of exactly 2 sets",
             "filters": "full = min_span grid x max_time grid; quickfull = the same but the don't-care max_time "
                        "values (equal to a node time) only with two min_span values; reduced = each axis "
-                       "alone + a diagonal",
+                       "alone + a diagonal, exact max_time values only",
             "min_span": "0, every distinct span of the grid, and the midpoints between them",
             "max_time": "None, midpoints between consecutive distinct node times, above the oldest node, "
                         "and (don't-care class) each node time itself",
@@ -171,6 +173,7 @@ def filter_grid(coords, times, mode):
         # full cross product for the exact max_time values; the don't-care values (max_time
         # equal to a node time) only with min_span 0 and the smallest span
         return [(a, b, ex) for a in ms for (b, ex) in mt if ex or a in (ms[0], ms[2])]
+    mt = [x for x in mt if x[1]]  # the don't-care values are left to the full modes
     out = [(a, None, True) for a in ms]
     out += [(0.0, b, ex) for (b, ex) in mt[1:]]
     for i, a in enumerate(ms[1:]):
@@ -517,7 +520,7 @@ def check_config(ctx, kind, sets, mask, ci, opts, acc):
         ms, mt, exact = grid[fi]
         check_call(ctx, kind, sets, mask, ms, mt, exact, False, True, "ts", acc, deep=False,
                    pre=pres[fi])
-    if kind == "between" and len(sets) == 2:
+    if kind == "between" and len(sets) == 2 and not opts.get("no_empty"):
         # an empty list among the sets contributes nothing
         for fam in ([sets[0], [], sets[1]], [[], sets[0], sets[1]], [sets[0], sets[1], []]):
             check_empty_between(ctx, fam, mask, acc)
